@@ -8,7 +8,10 @@ import (
 	"sort"
 	"strings"
 
+	"go/types"
+
 	"github.com/benoitkugler/gomacro/analysis"
+	asqlpkg "github.com/benoitkugler/gomacro/analysis/sql"
 	"github.com/benoitkugler/gomacro/generator"
 	"github.com/benoitkugler/gomacro/generator/dart"
 	"github.com/benoitkugler/gomacro/generator/go/gounions"
@@ -53,6 +56,10 @@ func init() {
 			res.Gen["sqlcrud"] = runGen(func() string { return generator.WriteDeclarations(sqlcrud.Generate(an, false)) })
 			res.Gen["sqlcrud_sets"] = runGen(func() string { return generator.WriteDeclarations(sqlcrud.Generate(an, true)) })
 		}
+		if want["tables"] {
+			out := runGen(func() string { return coqTableFacts(pkg, an) })
+			res.Gen["tables"] = out
+		}
 		if all || want["dart"] {
 			// the root directory as LoadSources computes it for a single file
 			root := filepath.Dir(target)
@@ -67,4 +74,41 @@ func init() {
 			})
 		}
 	}
+}
+
+// coqTableFacts renders what analysis/sql exposes of every table of the file (Coq: list tbl_obs)
+func coqTableFacts(pkg *packages.Package, an *analysis.Analysis) string {
+	qual := generator.NameRelativeTo(pkg.Types)
+	var items []string
+	for _, ta := range asqlpkg.SelectTables(an) {
+		var cols []string
+		for _, c := range ta.Columns {
+			_, g := c.Field.IsSQLGuard()
+			cols = append(cols, fmt.Sprintf("{| co_field := %s; co_guard := %s |}", coqStr(c.Field.Field.Name()), coqBool(g)))
+		}
+		prim, idt := "None", ""
+		if p := ta.Primary(); p >= 0 {
+			prim = fmt.Sprintf("(Some %d)", p)
+			idt = types.TypeString(ta.Columns[p].Field.Type.Type(), qual)
+		}
+		var fks []string
+		for _, k := range ta.ForeignKeys() {
+			fks = append(fks, fmt.Sprintf("{| fk_field := %s; fk_nullable := %s; fk_unique := %s; fk_idtype := %s |}",
+				coqStr(k.F.Field.Name()), coqBool(k.IsNullable()), coqBool(k.IsUnique), coqStr(types.TypeString(k.TargetIDType(), qual))))
+		}
+		group := func(gs [][]asqlpkg.Column) string {
+			var out []string
+			for _, g := range gs {
+				var names []string
+				for _, c := range g {
+					names = append(names, c.Field.Field.Name())
+				}
+				out = append(out, coqStrList(names))
+			}
+			return coqList(out)
+		}
+		items = append(items, fmt.Sprintf("{| to_go := %s; to_cols := %s; to_primary := %s; to_idtype := %s; to_fks := %s; to_uniques := %s; to_keys := %s |}",
+			coqStr(string(ta.TableName())), coqList(cols), prim, coqStr(idt), coqList(fks), group(ta.AdditionalUniqueCols()), group(ta.SelectKeys())))
+	}
+	return coqListNL(items)
 }
